@@ -19,11 +19,130 @@ U64 = IntV(0, 2 ** 64 - 1)
 # tiny path walker for one-parameter functions
 # ---------------------------------------------------------------------------------
 
+class NoneVal:
+    def __repr__(self):
+        return "None"
+
+
+NONEV = NoneVal()
+
+
+class UnionV:
+    """one of several abstract values (e.g. what a module-level dict may hold under a key)"""
+
+    def __init__(self, items):
+        self.items = list(items)
+
+    def __repr__(self):
+        return f"Union({self.items})"
+
+
+class RegexV:
+    def __init__(self, pattern: str, flags: int, src: str):
+        self.pattern, self.flags, self.src = pattern, flags, src
+
+
+HEX_WITNESSES = ["0", "ff", "FF", "aBcDeF", "00ff", "0" * 20 + "1", "ffffffffffffffff", "FFFFFFFFFFFFFFFF", "123456789abcdef0"]
+
+
+def regex_verdict(rx: RegexV, how: str):
+    """Does the guard accept every hexadecimal numeral (either case, leading zeros, any length)?
+    -> ('all', None) | ('rejects', witness) | ('unknown', None).  Rejection is shown by a witness string matched with the
+    stdlib regex engine on the pattern literal; acceptance of everything is shown structurally (one repeated character
+    class covering both cases, no upper bound on the length)."""
+    import re as _re
+    try:
+        comp = _re.compile(rx.pattern, rx.flags)
+    except _re.error:
+        return "unknown", None
+    fn = comp.fullmatch if how == "fullmatch" else (comp.match if how == "match" else comp.search)
+    for w in HEX_WITNESSES:
+        if fn(w) is None:
+            return "rejects", w
+    try:
+        import re._parser as sp      # Python >= 3.11
+    except ImportError:   # pragma: no cover
+        import sre_parse as sp
+    try:
+        tree = list(sp.parse(rx.pattern, rx.flags))
+    except Exception:
+        return "unknown", None
+    # strip anchors
+    while tree and str(tree[0][0]) == "AT":
+        tree = tree[1:]
+    while tree and str(tree[-1][0]) == "AT":
+        tree = tree[:-1]
+    if how != "fullmatch" and not (rx.pattern.endswith("$") or rx.pattern.endswith("\\Z")):
+        return "unknown", None
+    if len(tree) == 1 and str(tree[0][0]) in ("MAX_REPEAT", "MIN_REPEAT"):
+        lo, hi, sub = tree[0][1]
+        sub = list(sub)
+        if lo <= 1 and str(hi) == "MAXREPEAT" and len(sub) == 1 and str(sub[0][0]) == "IN":
+            chars = set()
+            for kind, val in sub[0][1]:
+                if str(kind) == "RANGE":
+                    chars |= {chr(c) for c in range(val[0], val[1] + 1)}
+                elif str(kind) == "LITERAL":
+                    chars.add(chr(val))
+                else:
+                    return "unknown", None
+            need = set("0123456789abcdef") | (set() if rx.flags & _re.IGNORECASE else set("ABCDEF"))
+            if need <= chars:
+                return "all", None
+    return "unknown", None
+
+
+class Module:
+    """what the two functions can see at module level: integer/string constants, compiled regexes, mutable containers
+    (abstractly: the set of values that any call may have stored in them), helper functions"""
+
+    def __init__(self, tree: ast.Module):
+        self.consts: Dict[str, object] = {}
+        self.stores: Dict[str, list] = {}
+        self.funcs: Dict[str, ast.FunctionDef] = {}
+        self.changed = False
+        for n in tree.body:
+            if isinstance(n, ast.FunctionDef):
+                self.funcs[n.name] = n
+            elif isinstance(n, (ast.Assign, ast.AnnAssign)) and n.value is not None:
+                tg = n.targets[0] if isinstance(n, ast.Assign) else n.target
+                if not isinstance(tg, ast.Name):
+                    continue
+                v = n.value
+                if isinstance(v, (ast.Dict, ast.List, ast.Set)) and not (getattr(v, "keys", None) or getattr(v, "elts", None)):
+                    self.stores[tg.id] = []
+                elif isinstance(v, ast.Call) and core.src(v.func) in ("dict", "list", "set", "OrderedDict", "collections.OrderedDict") and not v.args:
+                    self.stores[tg.id] = []
+                elif isinstance(v, ast.Call) and core.src(v.func) in ("re.compile",) and v.args and isinstance(v.args[0], ast.Constant) and isinstance(v.args[0].value, str):
+                    import re as _re
+                    flags = 0
+                    for a in list(v.args[1:]) + [k.value for k in v.keywords]:
+                        t = core.src(a)
+                        for nm, f in (("IGNORECASE", _re.IGNORECASE), ("re.I", _re.IGNORECASE), ("ASCII", _re.ASCII)):
+                            if nm in t:
+                                flags |= f
+                    self.consts[tg.id] = RegexV(v.args[0].value, flags, core.src(v))
+                else:
+                    val = Evaluator({}, self.consts).eval(v)
+                    if isinstance(val, (IntV, ConstStr)):
+                        self.consts[tg.id] = val
+
+    def store(self, name: str, v) -> None:
+        items = v.items if isinstance(v, UnionV) else [v]
+        for it in items:
+            if it is NONEV:
+                continue
+            if not any(repr(it) == repr(x) for x in self.stores[name]):
+                self.stores[name].append(it)
+                self.changed = True
+
+
 class Path:
-    def __init__(self, env, certain=True, trail=()):
+    def __init__(self, env, certain=True, trail=(), witness=None):
         self.env = env
         self.certain = certain   # False once an undecidable branch condition was passed
         self.trail = trail
+        self.witness = witness
 
 
 def _split_int(v: IntV, op, c: int) -> Tuple[Optional[IntV], Optional[IntV]]:
@@ -43,7 +162,6 @@ def _split_int(v: IntV, op, c: int) -> Tuple[Optional[IntV], Optional[IntV]]:
             return None, v
         if v.lo == v.hi:
             return v, None
-        # the complement of a point is not an interval unless the point is an end
         if c == v.lo:
             return IntV(c, c), IntV(c + 1, v.hi)
         if c == v.hi:
@@ -55,104 +173,245 @@ def _split_int(v: IntV, op, c: int) -> Tuple[Optional[IntV], Optional[IntV]]:
     return v, v
 
 
-def walk(stmts: List[ast.stmt], paths: List[Path], outcomes: list, param: str):
-    """Executes statements abstractly over a set of paths; appends (kind, value, path, node)
-    to outcomes for every return/raise.  Returns the paths that fall through."""
-    for st in stmts:
-        if not paths:
+class Walker:
+    def __init__(self, mod: Module):
+        self.mod = mod
+        self.depth = 0
+
+    def evaluator(self, env) -> "Evaluator":
+        ev = Evaluator(env, self.mod.consts)
+        ev.walker = self
+        return ev
+
+    def eval(self, e: ast.expr, env):
+        """expression evaluation with module-level containers and helper functions"""
+        if isinstance(e, ast.Call):
+            f = e.func
+            if isinstance(f, ast.Attribute) and isinstance(f.value, ast.Name) and f.value.id in self.mod.stores and f.value.id not in env:
+                name = f.value.id
+                args = [self.eval(a, env) for a in e.args]
+                if f.attr == "get":
+                    default = args[1] if len(args) > 1 else NONEV
+                    return UnionV(list(self.mod.stores[name]) + [default])
+                if f.attr in ("setdefault",) and len(args) == 2:
+                    self.mod.store(name, args[1])
+                    return UnionV(list(self.mod.stores[name]))
+                if f.attr in ("pop",):
+                    return UnionV(list(self.mod.stores[name]) + ([args[1]] if len(args) > 1 else []))
+                if f.attr in ("clear",):
+                    return NONEV
+                return Top(f"method .{f.attr} on module-level container {name}")
+            if isinstance(f, ast.Name) and f.id in self.mod.funcs and f.id not in env and self.depth < 4:
+                fn = self.mod.funcs[f.id]
+                args = [self.eval(a, env) for a in e.args]
+                params = [a.arg for a in fn.args.args]
+                sub = {p: (args[i] if i < len(args) else Top("missing argument")) for i, p in enumerate(params)}
+                outs: list = []
+                self.depth += 1
+                try:
+                    rest = self.walk(fn.body, [Path(sub)], outs, params[0] if params else "")
+                finally:
+                    self.depth -= 1
+                vals = [v for k, v, p, n in outs if k == "return"] + ([NONEV] if rest else [])
+                if any(k == "raise" for k, v, p, n in outs):
+                    vals.append(Top(f"{f.id}() may raise"))
+                return vals[0] if len(vals) == 1 else UnionV(vals)
+            if isinstance(f, ast.Name) and f.id == "len" and len(e.args) == 1:
+                return IntV(0, 1 << 62)
+        if isinstance(e, ast.Subscript) and isinstance(e.value, ast.Name) and e.value.id in self.mod.stores and e.value.id not in env:
+            return UnionV(list(self.mod.stores[e.value.id])) if self.mod.stores[e.value.id] else Top("empty container")
+        ev = self.evaluator(env)
+        return ev.eval(e)
+
+    def walk(self, stmts: List[ast.stmt], paths: List[Path], outcomes: list, param: str):
+        for st in stmts:
+            if not paths:
+                return []
+            if isinstance(st, ast.Expr) and isinstance(st.value, ast.Constant):
+                continue
+            if isinstance(st, (ast.Pass, ast.Global, ast.Import, ast.ImportFrom)):
+                continue
+            if isinstance(st, ast.Expr):
+                for p in paths:
+                    self.eval(st.value, p.env)
+                continue
+            if isinstance(st, (ast.Assign, ast.AnnAssign)):
+                tgts = st.targets if isinstance(st, ast.Assign) else [st.target]
+                if st.value is None:
+                    continue
+                for p in paths:
+                    v = self.eval(st.value, p.env)
+                    for tgt in tgts:
+                        if isinstance(tgt, ast.Name):
+                            p.env[tgt.id] = v
+                        elif isinstance(tgt, ast.Subscript) and isinstance(tgt.value, ast.Name) and tgt.value.id in self.mod.stores and tgt.value.id not in p.env:
+                            self.mod.store(tgt.value.id, v)
+                        else:
+                            for n in ast.walk(tgt):
+                                if isinstance(n, ast.Name) and isinstance(n.ctx, ast.Store):
+                                    p.env[n.id] = Top("assignment form not modelled")
+                continue
+            if isinstance(st, ast.Return):
+                for p in paths:
+                    v = self.eval(st.value, p.env) if st.value is not None else Top("return None")
+                    outcomes.append(("return", v, p, st))
+                return []
+            if isinstance(st, ast.Raise):
+                for p in paths:
+                    outcomes.append(("raise", None, p, st))
+                return []
+            if isinstance(st, ast.If):
+                then_paths, else_paths = [], []
+                for p in paths:
+                    for truth, env2, certain, wit in self.branch(st.test, p.env, param):
+                        tr = p.trail + ((f"if {core.src(st.test)}" if truth else f"if not {core.src(st.test)}"),)
+                        (then_paths if truth else else_paths).append(Path(env2, p.certain and certain, tr, wit or p.witness))
+                a = self.walk(st.body, then_paths, outcomes, param)
+                b = self.walk(st.orelse, else_paths, outcomes, param)
+                paths = a + b
+                continue
+            for p in paths:
+                outcomes.append(("unmodelled", Top(f"statement {type(st).__name__} not modelled"), p, st))
             return []
-        if isinstance(st, ast.Expr) and isinstance(st.value, ast.Constant):
-            continue  # docstring
-        if isinstance(st, ast.Pass):
-            continue
-        if isinstance(st, (ast.Assign, ast.AnnAssign)):
-            tgt = st.targets[0] if isinstance(st, ast.Assign) else st.target
-            val = st.value
-            for p in paths:
-                if isinstance(tgt, ast.Name) and val is not None and (not isinstance(st, ast.Assign) or len(st.targets) == 1):
-                    p.env[tgt.id] = Evaluator(p.env).eval(val)
-                else:
-                    for n in ast.walk(tgt):
-                        if isinstance(n, ast.Name):
-                            p.env[n.id] = Top("assignment form not modelled")
-            continue
-        if isinstance(st, ast.Return):
-            for p in paths:
-                v = Evaluator(p.env).eval(st.value) if st.value is not None else Top("return None")
-                outcomes.append(("return", v, p, st))
-            return []
-        if isinstance(st, ast.Raise):
-            for p in paths:
-                outcomes.append(("raise", None, p, st))
-            return []
-        if isinstance(st, ast.If):
-            then_paths, else_paths = [], []
-            for p in paths:
-                t_env, f_env, certain = branch(st.test, p.env, param)
-                if t_env is not None:
-                    then_paths.append(Path(t_env, p.certain and certain, p.trail + (f"if {core.src(st.test)}",)))
-                if f_env is not None:
-                    else_paths.append(Path(f_env, p.certain and certain, p.trail + (f"if not {core.src(st.test)}",)))
-            a = walk(st.body, then_paths, outcomes, param)
-            b = walk(st.orelse, else_paths, outcomes, param)
-            paths = a + b
-            continue
-        # anything else: give up on these paths
-        for p in paths:
-            outcomes.append(("unmodelled", Top(f"statement {type(st).__name__} not modelled"), p, st))
-        return []
-    return paths
+        return paths
+
+    def branch(self, test: ast.expr, env: Dict[str, object], param: str):
+        """-> list of (truth, env, decided?, witness)"""
+        if isinstance(test, ast.UnaryOp) and isinstance(test.op, ast.Not):
+            return [(not t, e, c, w) for t, e, c, w in self.branch(test.operand, env, param)]
+        if isinstance(test, ast.BoolOp):
+            is_and = isinstance(test.op, ast.And)
+            results = []
+            cur = [(dict(env), True, None)]
+            for v in test.values:
+                nxt = []
+                for e0, c0, w0 in cur:
+                    for t, e1, c1, w1 in self.branch(v, e0, param):
+                        if t == is_and:
+                            nxt.append((e1, c0 and c1, w1 or w0))
+                        else:
+                            results.append((not is_and, e1, c0 and c1, w1 or w0))
+                cur = nxt
+            results.extend((is_and, e1, c1, w1) for e1, c1, w1 in cur)
+            return results
+        if isinstance(test, ast.Compare) and len(test.ops) > 1:
+            # a <= x < b  ==  (a <= x) and (x < b)
+            parts = []
+            left = test.left
+            for op, right in zip(test.ops, test.comparators):
+                parts.append(ast.Compare(left=left, ops=[op], comparators=[right]))
+                left = right
+            return self.branch(ast.BoolOp(op=ast.And(), values=parts), env, param)
+        if isinstance(test, ast.Call) and isinstance(test.func, ast.Name) and test.func.id == "isinstance" and len(test.args) == 2 \
+                and isinstance(test.args[0], ast.Name):
+            v = env.get(test.args[0].id)
+            names = {n.id for n in ast.walk(test.args[1]) if isinstance(n, ast.Name)}
+            if isinstance(v, IntV) and "int" in names:
+                return [(True, dict(env), True, None)]
+            if isinstance(v, TextV) and "str" in names:
+                return [(True, dict(env), True, None)]
+        # regex guards:  RX.fullmatch(text) [is None | is not None]
+        rx = self._regex_test(test, env)
+        if rx is not None:
+            verdict, wit, positive = rx
+            if verdict == "all":
+                return [(positive, dict(env), True, None)]
+            if verdict == "rejects":
+                return [(positive, dict(env), True, None), (not positive, dict(env), True, wit)]
+            return [(True, dict(env), False, None), (False, dict(env), False, None)]
+        if isinstance(test, ast.Compare) and len(test.ops) == 1:
+            l, r = test.left, test.comparators[0]
+            op = test.ops[0]
+            if isinstance(op, (ast.Is, ast.IsNot)) and isinstance(r, ast.Constant) and r.value is None and isinstance(l, ast.Name):
+                v = env.get(l.id)
+                items = v.items if isinstance(v, UnionV) else [v]
+                nones = [x for x in items if x is NONEV]
+                others = [x for x in items if x is not NONEV]
+                out = []
+                is_none_env = dict(env, **{l.id: NONEV}) if nones else None
+                not_none_env = dict(env, **{l.id: (others[0] if len(others) == 1 else UnionV(others))}) if others else None
+                if isinstance(v, Top) or v is None:
+                    return [(True, dict(env), False, None), (False, dict(env), False, None)]
+                if is_none_env is not None:
+                    out.append((isinstance(op, ast.Is), is_none_env, True, None))
+                if not_none_env is not None:
+                    out.append((isinstance(op, ast.IsNot), not_none_env, True, None))
+                return out
+            ev = self.evaluator(env)
+            for var, other, flip in ((l, r, False), (r, l, True)):
+                if isinstance(var, ast.Name) and isinstance(env.get(var.id), IntV):
+                    c = ev.const_int(other)
+                    flipmap = {ast.Lt: ast.Gt, ast.LtE: ast.GtE, ast.Gt: ast.Lt, ast.GtE: ast.LtE, ast.Eq: ast.Eq, ast.NotEq: ast.NotEq}
+                    if c is not None and type(op) in flipmap:
+                        o = flipmap[type(op)]() if flip else op
+                        t, f = _split_int(env[var.id], o, c)
+                        out = []
+                        if t is not None:
+                            out.append((True, dict(env, **{var.id: t}), True, None))
+                        if f is not None:
+                            out.append((False, dict(env, **{var.id: f}), True, None))
+                        return out
+        if isinstance(test, ast.Name) and isinstance(env.get(test.id), IntV):
+            t, f = _split_int(env[test.id], ast.NotEq(), 0)
+            out = []
+            if t is not None:
+                out.append((True, dict(env, **{test.id: t}), True, None))
+            if f is not None:
+                out.append((False, dict(env, **{test.id: f}), True, None))
+            return out
+        return [(True, dict(env), False, None), (False, dict(env), False, None)]
+
+    def _regex_test(self, test: ast.expr, env):
+        """recognises  RX.fullmatch(text) / re.fullmatch(pat, text)  optionally compared with None; returns
+        (verdict, witness, truth value of the test when the text matches)"""
+        positive = True
+        e = test
+        if isinstance(e, ast.Compare) and len(e.ops) == 1 and isinstance(e.comparators[0], ast.Constant) and e.comparators[0].value is None:
+            if isinstance(e.ops[0], ast.Is):
+                positive = False
+            elif not isinstance(e.ops[0], ast.IsNot):
+                return None
+            e = e.left
+        if not (isinstance(e, ast.Call) and isinstance(e.func, ast.Attribute) and e.func.attr in ("fullmatch", "match", "search")):
+            return None
+        how = e.func.attr
+        rx = None
+        text_arg = None
+        if isinstance(e.func.value, ast.Name) and isinstance(self.mod.consts.get(e.func.value.id), RegexV) and e.args:
+            rx, text_arg = self.mod.consts[e.func.value.id], e.args[0]
+        elif core.src(e.func.value) == "re" and len(e.args) >= 2 and isinstance(e.args[0], ast.Constant) and isinstance(e.args[0].value, str):
+            import re as _re
+            flags = _re.IGNORECASE if any("IGNORECASE" in core.src(a) or core.src(a) == "re.I" for a in list(e.args[2:]) + [k.value for k in e.keywords]) else 0
+            rx, text_arg = RegexV(e.args[0].value, flags, core.src(e)), e.args[1]
+        if rx is None or not isinstance(text_arg, ast.Name) or not isinstance(env.get(text_arg.id), TextV):
+            return None
+        t = env[text_arg.id]
+        if t.case_folded == "lower":
+            import re as _re
+            rx = RegexV(rx.pattern, rx.flags | _re.IGNORECASE, rx.src)
+        verdict, wit = regex_verdict(rx, how)
+        return verdict, wit, positive
 
 
-def branch(test: ast.expr, env: Dict[str, object], param: str):
-    """-> (env if true | None, env if false | None, decided?)"""
-    ev = Evaluator(env)
-    if isinstance(test, ast.UnaryOp) and isinstance(test.op, ast.Not):
-        t, f, c = branch(test.operand, env, param)
-        return f, t, c
-    if (isinstance(test, ast.Call) and isinstance(test.func, ast.Name) and test.func.id == "isinstance"
-            and len(test.args) == 2 and isinstance(test.args[0], ast.Name)):
-        v = env.get(test.args[0].id)
-        names = {n.id for n in ast.walk(test.args[1]) if isinstance(n, ast.Name)}
-        if isinstance(v, IntV) and "int" in names:
-            return dict(env), None, True
-        if isinstance(v, TextV) and "str" in names:
-            return dict(env), None, True
-    if isinstance(test, ast.Compare) and len(test.ops) == 1:
-        l, r = test.left, test.comparators[0]
-        op = test.ops[0]
-        if isinstance(l, ast.Name) and isinstance(env.get(l.id), IntV):
-            c = ev.const_int(r)
-            if c is not None:
-                t, f = _split_int(env[l.id], op, c)
-                te = dict(env, **{l.id: t}) if t is not None else None
-                fe = dict(env, **{l.id: f}) if f is not None else None
-                return te, fe, True
-        if isinstance(r, ast.Name) and isinstance(env.get(r.id), IntV):
-            c = ev.const_int(l)
-            flip = {ast.Lt: ast.Gt, ast.LtE: ast.GtE, ast.Gt: ast.Lt, ast.GtE: ast.LtE, ast.Eq: ast.Eq, ast.NotEq: ast.NotEq}
-            if c is not None and type(op) in flip:
-                t, f = _split_int(env[r.id], flip[type(op)](), c)
-                te = dict(env, **{r.id: t}) if t is not None else None
-                fe = dict(env, **{r.id: f}) if f is not None else None
-                return te, fe, True
-    if isinstance(test, ast.Name) and isinstance(env.get(test.id), IntV):
-        t, f = _split_int(env[test.id], ast.NotEq(), 0)
-        te = dict(env, **{test.id: t}) if t is not None else None
-        fe = dict(env, **{test.id: f}) if f is not None else None
-        return te, fe, True
-    return dict(env), dict(env), False
-
-
-def analyse_function(fn: ast.FunctionDef, init) -> list:
+def analyse_function(fn: ast.FunctionDef, init, mod: Optional[Module] = None) -> list:
     if len(fn.args.args) < 1:
         raise core.AnalysisError(f"{fn.name} has no parameter")
+    mod = mod or Module(ast.Module(body=[], type_ignores=[]))
     param = fn.args.args[0].arg
     outcomes: list = []
-    rest = walk(fn.body, [Path({param: init})], outcomes, param)
+    w = Walker(mod)
+    rest = w.walk(fn.body, [Path({param: init})], outcomes, param)
     for p in rest:
         outcomes.append(("return", Top("falls off the end (returns None)"), p, fn))
-    return outcomes
+    # a union-valued return stands for several possible results: judge each member
+    flat = []
+    for kind, v, p, node in outcomes:
+        if kind == "return" and isinstance(v, UnionV):
+            for it in v.items:
+                flat.append((kind, it, p, node))
+        else:
+            flat.append((kind, v, p, node))
+    return flat
 
 
 # ---------------------------------------------------------------------------------
@@ -163,6 +422,11 @@ def judge_producer(v, rng=None) -> Tuple[str, str]:
     """-> (state, explanation) for one return value of u64_to_hex"""
     if isinstance(v, Top):
         return core.UNDECIDED, f"shape not determined: {v.why}"
+    if v is NONEV:
+        return core.VIOLATED, "returns None instead of text"
+    if isinstance(v, TextV):
+        return core.VIOLATED, ("returns a text that was remembered from an earlier hex_to_u64 call: the caller's own spelling (upper case, "
+                               "leading zeros) comes back instead of the canonical lower-case form, so equal ids no longer have equal strings")
     if isinstance(v, ConstStr):
         if isinstance(rng, IntV) and rng.lo == rng.hi:
             want = "%x" % rng.lo          # canonical text of that single value
@@ -223,9 +487,9 @@ def judge_parser(v) -> Tuple[str, str]:
 
 # ---------------------------------------------------------------------------------
 
-def check_producer(ctx, fn: ast.FunctionDef, rel: str, record=True):
+def check_producer(ctx, fn: ast.FunctionDef, rel: str, record=True, mod=None):
     res = []
-    for kind, v, p, node in analyse_function(fn, U64):
+    for kind, v, p, node in analyse_function(fn, U64, mod):
         rng = p.env.get(fn.args.args[0].arg)
         trail = " / ".join(p.trail) or "unconditional"
         construct = f"a5.core.hex.{fn.name} return `{core.src(node.value) if isinstance(node, ast.Return) and node.value is not None else core.src(node)}` on path [{trail}]"
@@ -242,13 +506,16 @@ def check_producer(ctx, fn: ast.FunctionDef, rel: str, record=True):
     return res
 
 
-def check_parser(ctx, fn: ast.FunctionDef, rel: str):
+def check_parser(ctx, fn: ast.FunctionDef, rel: str, mod=None):
     res = []
-    for kind, v, p, node in analyse_function(fn, TextV()):
+    for kind, v, p, node in analyse_function(fn, TextV(), mod):
         trail = " / ".join(p.trail) or "unconditional"
         construct = f"a5.core.hex.{fn.name} return `{core.src(node.value) if isinstance(node, ast.Return) and node.value is not None else core.src(node)}` on path [{trail}]"
         if kind == "raise":
-            st, why = core.UNDECIDED, "raises on a path whose condition on the text is not modelled"
+            if p.certain and p.witness is not None:
+                st, why = core.VIOLATED, f"raises for the valid hexadecimal text {p.witness!r} (path [{trail}]); parsing must accept upper case and leading zeros"
+            else:
+                st, why = core.UNDECIDED, "raises on a path whose condition on the text is not modelled"
         elif kind == "unmodelled":
             st, why = core.UNDECIDED, v.why
         else:
@@ -360,10 +627,18 @@ def run(ctx):
     pars = ctx.sources.func(HEX, "hex_to_u64")
     ctx.analysed["functions"] = ["a5.core.hex.u64_to_hex", "a5.core.hex.hex_to_u64"]
 
-    pres = check_producer(ctx, prod, HEX)
+    mod = Module(ctx.sources.tree(HEX))
+    for _ in range(4):      # what the module-level containers may hold, to a fix-point over both entry points
+        mod.changed = False
+        check_producer(ctx, prod, HEX, mod=mod)
+        check_parser(ctx, pars, HEX, mod=mod)
+        if not mod.changed:
+            break
+    ctx.analysed["module_containers"] = {k: [repr(x)[:80] for x in v] for k, v in mod.stores.items()}
+    pres = check_producer(ctx, prod, HEX, mod=mod)
     for st, construct, where, why in pres:
         ctx.ob("C19.1", construct, st, where, why)
-    qres = check_parser(ctx, pars, HEX)
+    qres = check_parser(ctx, pars, HEX, mod=mod)
     for st, construct, where, why in qres:
         ctx.ob("C19.2", construct, st, where, why)
     ctx.floor("return paths of u64_to_hex", len(pres), 1)
